@@ -17,6 +17,9 @@ CONSTANTS
     VerifyBeforeCache = TRUE
     RecheckCachedLayer = TRUE
     PassVerifies = TRUE
+    TocLabelFirst = TRUE
+    WithMount = FALSE
+    FsCfgs = {"--"}
 SPECIFICATION MonSpec
 INVARIANTS MountImpliesToc ServedAreGood NoBadStaysCached FailedReadLeavesNothing
 CHECK_DEADLOCK FALSE
